@@ -164,14 +164,34 @@ def _(e):
     return "ktensor.__mul__", operator.mul, (X, e.ktensor()), {}, X, {}
 
 
-@row("tenmat.__add__:shape-mismatch", (2, 3))
-def _(e):
-    M = e.tenmat()
-    shp, how = other_shape(e, "size")
-    M2 = with_shape(e, shp).tenmat()
-    if M2.shape == M.shape:
-        return None
-    return "tenmat.__add__", operator.add, (M, M2), {}, M, {}
+def _tenmat_binary_rows():
+    # every element-wise operator of the matricized tensor x every way two operands can disagree: another tensor shape, or the same
+    # tensor unfolded differently -- including the pair (1 x P, P x 1), which NumPy would happily broadcast to P x P
+    for opname, fn in (("__add__", operator.add), ("__sub__", operator.sub)):
+        def other_shape_row(e, fn=fn, opname=opname):
+            M = e.tenmat()
+            shp, how = other_shape(e, "size")
+            M2 = with_shape(e, shp).tenmat()
+            if M2.shape == M.shape:
+                return None
+            return "tenmat." + opname, fn, (M, M2), {}, M, {}
+
+        def other_split_row(e, fn=fn, opname=opname):
+            T = e.tensor()
+            alln = np.arange(e.N)
+            none = np.array([], dtype=int)
+            if int(np.prod(e.shape)) < 2:
+                return None
+            if e.rng.random() < 0.5:
+                M, M2 = T.to_tenmat(alln, none), T.to_tenmat(none, alln)          # P x 1 against 1 x P
+            else:
+                M, M2 = T.to_tenmat(none, alln), T.to_tenmat(alln, none)
+            return "tenmat." + opname, fn, (M, M2), {}, M, {"broadcastable": True}
+        ROWS[f"tenmat.{opname}:operand-of-another-tensor-shape"] = {"make": other_shape_row, "orders": (2, 3)}
+        ROWS[f"tenmat.{opname}:same-tensor-other-split(broadcastable)"] = {"make": other_split_row, "orders": (1, 2, 3)}
+
+
+_tenmat_binary_rows()
 
 
 @row("tenmat.__mul__:inner-dimension-mismatch", (2, 3))
@@ -630,6 +650,23 @@ def _(e):
     sub, m = one_past(e)
     subs = np.array([sub, [0] * e.N])
     return "sptensor.from_aggregator", ttb.sptensor.from_aggregator, (subs, np.array([[1.0], [2.0]]), e.shape), {}, None, {"last_mode": m == e.N - 1}
+
+
+@row("sptensor.from_aggregator:subscript-outside-shape(aggregates to zero)")
+def _(e):
+    # the offending row carries / aggregates to the value 0 (explicit zero, cancelling duplicates, a reducer that returns 0): it is still
+    # an inconsistent request, whatever happens to zero results afterwards
+    sub, m = one_past(e)
+    inside = [int(e.rng.integers(0, s_)) for s_ in e.shape]
+    how = int(e.rng.integers(0, 3))
+    if how == 0:
+        subs, vals, fun = np.array([sub, inside]), np.array([[0.0], [2.0]]), None
+    elif how == 1:
+        subs, vals, fun = np.array([sub, inside, sub]), np.array([[2.5], [1.0], [-2.5]]), None
+    else:
+        subs, vals, fun = np.array([sub, sub, inside]), np.array([[0.0], [4.0], [3.0]]), np.min
+    args = (subs, vals, e.shape) if fun is None else (subs, vals, e.shape, fun)
+    return "sptensor.from_aggregator", ttb.sptensor.from_aggregator, args, {}, None, {"how": ["explicit-zero", "cancelling", "reducer-zero"][how]}
 
 
 @row("sptensor.from_aggregator:count-mismatch")
